@@ -20,7 +20,7 @@ META = {
                   "object-level operations; after every step all query functions (granular and API level, all inherited/descendants flag "
                   "combinations, every selector) are compared with the model, inputs are checked unmodified and results strictly parsed. "
                   "Ancestry by path components is checked with symbolic selector strings (<= 8 chars) by CrossHair.",
-    "level_text_more": "Also: the same 2-step sequences starting from a parsed library object, and from 5 uncompressed marking lists (duplicate selectors, overlapping entries) as parsed content may carry; the fixture's name and labels.[1] hold false-y values. One operation naming two selectors and one or two markings after a first add (dict and object); the object-form sequences go through the methods objects carry.",
+    "level_text_more": "Also: the same 2-step sequences starting from a parsed library object, and from 5 uncompressed marking lists (duplicate selectors, overlapping entries) as parsed content may carry; the fixture's name and labels.[1] hold false-y values. One operation naming two selectors and one or two markings after a first add (dict and object); the object-form sequences go through the methods objects carry. Rounds 5-6: the selector-walk kernels of C08 (list indices >= 10, hyphenated siblings, selector lists) are part of this check.",
     "level_note": "Sequences are solver-selected but concretely executed (selector-enumerated, E1s); only the ancestry obligation is symbolic over "
                   "arbitrary strings. Dictionary objects only (the functions accept them); marking objects and SRO fixtures outside the claim.",
     "technique": "CrossHair-driven bounded enumeration of operation sequences on the real functions vs a set model; symbolic selector strings for "
